@@ -32,6 +32,7 @@ type c14Val struct {
 	T     string            `json:"t"`
 	V     json.RawMessage   `json:"v,omitempty"` // decimal string (int), 16 hex digits (float), true/false (bool)
 	B     []int             `json:"b,omitempty"` // bytes of a string
+	R     [][2]int          `json:"r,omitempty"` // or its run-length form <<byte, count>> (long strings)
 	E     []c14Val          `json:"e,omitempty"`
 	P     [][2]c14Val       `json:"p,omitempty"`
 	Name  string            `json:"name,omitempty"`
@@ -50,6 +51,13 @@ func (v c14Val) str() string {
 }
 
 func (v c14Val) bytes() string {
+	if len(v.R) > 0 {
+		var sb strings.Builder
+		for _, r := range v.R {
+			sb.WriteString(strings.Repeat(string([]byte{byte(r[0])}), r[1]))
+		}
+		return sb.String()
+	}
 	b := make([]byte, len(v.B))
 	for i, x := range v.B {
 		b[i] = byte(x)
@@ -809,7 +817,9 @@ func c14Load(job c14LoadJob) (rec c14LoadRec) {
 				err = fmt.Errorf("panic: %v", r)
 			}
 		}()
-		err = repl.AutoLoad(s1, repl.Options{AutoLoad: true})
+		// the loading session is configured like the saving one (grol -max-save-len applies to both)
+		s1.MaxValueLen = job.Lim
+		err = repl.AutoLoad(s1, repl.Options{AutoLoad: true, MaxValueLen: job.Lim})
 	}()
 	rec.A = c14Observe(s1, b1, job, err)
 	// (b) a fresh session evaluates load(): the whole file as one program
